@@ -765,7 +765,7 @@ def rule_range_fb(ctx, prog, chk, names=("fb_read_bin", "fb_read_str")):
 
 # ---------------------------------------------------------------------- entry points
 POINT_ENC = re.compile(r"^(ep\d*|eb|ed)_write_bin$")
-ENC_MAY_TAKE_INPUT = re.compile(r"_(is_infty|norm|size_bin|copy)$")
+ENC_MAY_TAKE_INPUT = re.compile(r"_(is_infty|is_valid|on_curve|cmp|norm|size_bin|copy)$")     # predicates, sizing, and the normalisation itself
 
 
 def rule_enc_norm(ctx, prog, chk):
